@@ -15,6 +15,8 @@ def check(tree, rep, tier='quick', seed=0):
     core = get_core(tree)
     R.k17_prompt_demand(core, rep)
     R.k29_prompt_quotes_the_waiters(core, rep)
+    R.k11i_strict_decoding(core, rep)    # no byte of the input file is dropped or replaced before the validators see the text
+    R.k18b_write_reaches_the_file(core, rep)     # 'answers were written back': the write lands in the named file wherever that file lives
     R.k17b_validation_on_demand(core, rep)
     R.k13_add_form(core, rep)            # a form reached through an input first is loaded like one reached through a line first
     R.k10_refusal(core, rep)
